@@ -5,4 +5,5 @@
 package schemaorg
 
 //@ func NewParser(root, timingInfo)
+//@   requires root != nil && timingInfo != nil
 //@   ensures result != nil && fresh(result)
